@@ -185,14 +185,69 @@ def run(ctx: Ctx) -> None:
             ctx.corr_compared += 1
             if e.strip() != g.strip():
                 ctx.mismatch("text_join: implementation and model differ", {"request": ln[:1200], "impl": e[:500], "model": g[:500]})
+        # tie: every real call of processDelimiters (delimiter array before / after) against the model pairs_laminar is about
+        import markdown_it.rules_inline.balance_pairs as bp
+        rec = []
+        orig_pd = bp.processDelimiters
+
+        def snap(delims):
+            return [(d.marker, d.length or 0, d.token, d.end, d.open, d.close) for d in delims]
+
+        def wrapped(state, delimiters):
+            before = snap(delimiters)
+            orig_pd(state, delimiters)
+            if before and len(before) <= 400:
+                rec.append((before, snap(delimiters)))
+        bp.processDelimiters = wrapped
+        try:
+            mdd = MarkdownIt("js-default")
+            DAL = ["*", "**", "***", "_", "__", "~~", "~~~", "a", " ", "b*", "*c", "_d_", "[", "](u)", "**e", "f**", "\n", "`", "<", "x", "*_", "_*",
+                   "é*", "*é", "\\*", "a*b", "(*", "*)", "~"]
+            for _ in range(1500 if quick else 40000):
+                try:
+                    mdd.render("".join(rng.choice(DAL) for _ in range(rng.randint(1, 16))))
+                except Exception:
+                    pass
+            for src in gens.doc_stream(rng, 400 if quick else 8000, 5):
+                try:
+                    mdd.render(src)
+                except Exception:
+                    pass
+        finally:
+            bp.processDelimiters = orig_pd
+
+        def encd(ds):
+            return ",".join(f"{m}:{ln}:{t}:{e}:{int(o)}:{int(c)}" for m, ln, t, e, o, c in ds) or "~"
+        got = drv.batch(["delims " + encd(b) for b, _ in rec])
+        npairs = 0
+        for (b, a), g in zip(rec, got):
+            ctx.corr_compared += 1
+            npairs += sum(1 for x in a if x[3] >= 0)
+            if encd(a) != g.strip():
+                ctx.mismatch("processDelimiters: implementation and model differ", {"delimiters": encd(b), "impl": encd(a), "model": g[:600]})
+                break
+            # the theorem's hypotheses hold of every real call, and its conclusion of every real result
+            if any(x[3] >= 0 for x in b) or any(x[2] < 0 for x in b):
+                ctx.mismatch("processDelimiters is called on an array with `end` set or a negative token index (outside pairs_laminar)",
+                             {"delimiters": encd(b)})
+                break
+            prs = [(i, x[3]) for i, x in enumerate(a) if x[3] >= 0]
+            if any(not (i < e < len(a)) for i, e in prs) or any(o1 < o2 < e1 < e2 for o1, e1 in prs for o2, e2 in prs):
+                ctx.fail("crossing-pairs", "processDelimiters formed crossing or ill-ordered pairs", {"delimiters": encd(b), "result": encd(a)})
+                break
+        ctx.cov["processDelimiters_calls"] = len(rec)
+        ctx.cov["processDelimiters_pairs"] = npairs
         # tie of the modelled block sub-parser (mini_wellformed is a theorem about exactly this model)
         from . import miniblock
         miniblock.tie_all(ctx, drv, quick)
     finally:
         drv.close()
     ctx.partial += [
-        "kind matching of emphasis/strikethrough pairs (the delimiter matching is laminar: no crossing * _ ~~ pairs) is "
-        "not proved: processDelimiters is not modelled; covered by the oracle incl. the bounded-exhaustive delimiter sweep",
+        "the delimiter matching is laminar — PROVED (Props/C02e.lean pairs_laminar): processDelimiters is modelled statement by "
+        "statement (openersBottom, jumps, headerIdx, the rule of 3) and tied call by call to the real function; for every delimiter "
+        "array with unset ends, whatever the markers, lengths and flags, the pairs it forms are ordered and never cross. NOT PROVED: "
+        "that emphasis / strikethrough postProcess turn exactly these pairs into open/close tokens of one kind (those rules and "
+        "scanDelims are not modelled): covered by the oracle incl. the bounded-exhaustive delimiter sweep",
         "balance and levels of the block-level stream follow from the segment contract K5 (engine theorem loop_segs); K5 is "
         "PROVED for code, fence, hr, heading, paragraph (Props/C02b.lean segOK_*), giving the unconditional mini_wellformed "
         "(levelled from 0, balanced, SyntaxTreeNode builds) for that sub-parser, whose model is tied by the `miniblock` "
